@@ -14,6 +14,23 @@ func init() {
 	families["c06-zoo"] = func(r *hx.Rand, n int, out *hx.Out, a []string) { zooFamily(r, n, out, a, "C06") }
 }
 
+// jsonldKeywordDocs: every keyword with every kind of value in every kind of place (context entry, term definition
+// entry, node object member, value object member), exhaustively.
+func jsonldKeywordDocs() []string {
+	var docs []string
+	for _, kw := range jldKeywords {
+		for _, v := range jldValues {
+			docs = append(docs,
+				`{"@context":{`+jsonStr(kw)+`:`+v+`},"http://e/p":"x","t":1}`,
+				`{"@context":{"t":{"@id":"http://e/t",`+jsonStr(kw)+`:`+v+`}},"@id":"http://e/s","t":{"a":"b","@value":"x"},"http://e/q":[1]}`,
+				`{"@id":"http://e/s",`+jsonStr(kw)+`:`+v+`,"http://e/p":"x"}`,
+				`{"@id":"http://e/s","http://e/p":{"@value":"x",`+jsonStr(kw)+`:`+v+`},"_:q":{`+jsonStr(kw)+`:`+v+`}}`,
+			)
+		}
+	}
+	return docs
+}
+
 func zooGenOpts(r *hx.Rand, name string) (zooOpts, string) {
 	o := zooOpts{}
 	var tags []string
@@ -54,9 +71,13 @@ func zooGenOpts(r *hx.Rand, name string) (zooOpts, string) {
 // zooFamily runs decoders over seeds, mutations and adversarial documents.
 // prop = "C05": totality and iterator protocol; "C06": well-formedness of every statement (also before an error).
 func zooFamily(r *hx.Rand, n int, out *hx.Out, _ []string, prop string) {
-	for c := 0; c < n; c++ {
+	kwDocs := jsonldKeywordDocs()
+	for c := 0; c < n+len(kwDocs); c++ {
 		rr := r.Fork()
 		name := zooNames[c%len(zooNames)]
+		if c >= n {
+			name = hx.Pick(rr, []string{"jsonld", "jsonld", "jsonld", "htmljsonld"})
+		}
 		var data []byte
 		kind := ""
 		exts := decoderSeedExts[name]
@@ -65,10 +86,24 @@ func zooFamily(r *hx.Rand, n int, out *hx.Out, _ []string, prop string) {
 			pool = append(pool, seeds(e)...)
 		}
 		corpusDocs := zooCorpus[name]
+		corpusIdx, corpusVariant := c/len(zooNames)/4, c/len(zooNames)%4
+		if c >= n {
+			corpusIdx = 1 << 30
+		}
 		switch k := rr.Intn(10); {
-		case c/len(zooNames) < len(corpusDocs):
-			data, kind = []byte(corpusDocs[c/len(zooNames)]), "corpus"
-		case k < 3 && len(pool) > 0:
+		case c >= n:
+			data, kind = []byte(kwDocs[c-n]), "jsonld-keyword-exhaustive"
+			if name == "htmljsonld" {
+				data = []byte("<html><head><script type=\"application/ld+json\">" + kwDocs[c-n] + "</script></head></html>")
+			}
+		case corpusIdx < len(corpusDocs):
+			data, kind = []byte(corpusDocs[corpusIdx]), "corpus"
+		case k < 4 && genStructured(rr.Fork(), name) != nil:
+			data, kind = genStructured(rr, name), "structured"
+			if rr.Chance(1, 4) {
+				data, kind = mutate(rr, data, mutDictFor(name)), "mutated-structured"
+			}
+		case k < 5 && len(pool) > 0:
 			data, kind = hx.Pick(rr, pool).data, "seed"
 		case k < 8 && len(pool) > 0:
 			data, kind = mutate(rr, hx.Pick(rr, pool).data, mutDictFor(name)), "mutated-seed"
@@ -81,6 +116,17 @@ func zooFamily(r *hx.Rand, n int, out *hx.Out, _ []string, prop string) {
 			data = data[:200000]
 		}
 		o, otags := zooGenOpts(rr, name)
+		if kind == "corpus" { // every corpus document under all four offsets x base combinations
+			o = zooOpts{offsets: corpusVariant&1 != 0}
+			otags = "corpus-opts"
+			if corpusVariant&2 != 0 {
+				o.base = "http://example.org/dir/doc?q"
+				otags += ",base"
+			}
+			if o.offsets {
+				otags += ",offsets"
+			}
+		}
 		res := zooRun(name, data, o)
 		oracle := ""
 		sig := ""
